@@ -12,6 +12,7 @@ import (
 	"regexp"
 	"runtime"
 	"runtime/debug"
+	"sort"
 	"strings"
 	"sync"
 	"testing"
@@ -27,7 +28,7 @@ var R *ev.Run
 func TestMain(m *testing.M) {
 	R = ev.New("C08", "exploration")
 	R.Rule("A case is (record type, codec, value): values are enumerated from per-field alphabets " +
-		"(quick: base + every 1-field and every 2-field deviation from the base value = all pairs of field values; " +
+		"(quick: the base value and every deviation of up to 3 fields at once = all triples of field values; " +
 		"thorough: the full product), encoded and decoded by the real codec and compared field by field by the " +
 		"harness comparator after applying the documented loss of that codec to the expected value. Decoder cases are " +
 		"(decoder, byte string): every 1-edit corruption of valid encodings, every short byte string, typed junk per field. " +
@@ -91,26 +92,29 @@ func trimStack(s string) string {
 			l = l[:i]
 		}
 		out = append(out, l)
-		if len(out) >= 8 {
+		if len(out) >= 16 {
 			break
 		}
 	}
 	return strings.Join(out, " < ")
 }
 
-// panicSite returns the first frame inside the code under test (stable part of a key).
+// panicSite returns the innermost frame inside the code under test (stable part of a key).
 func panicSite(stack string) string {
-	for _, f := range strings.Split(stack, " < ") {
-		if strings.Contains(f, "ipfs-cluster") || strings.Contains(f, "go-cid") || strings.Contains(f, "multiaddr") ||
-			strings.Contains(f, "ugorji") || strings.Contains(f, "protobuf") || strings.Contains(f, "encoding/json") ||
-			strings.Contains(f, "libp2p") {
-			return f
+	frames := strings.Split(stack, " < ")
+	for _, pref := range [][]string{{"ipfs-cluster"}, {"go-cid", "multiaddr", "libp2p", "go-datastore"}, {"ugorji", "protobuf", "encoding/json"}} {
+		for _, f := range frames {
+			for _, p := range pref {
+				if strings.Contains(f, p) {
+					return f
+				}
+			}
 		}
 	}
 	if stack == "" {
 		return "?"
 	}
-	return strings.Split(stack, " < ")[0]
+	return frames[0]
 }
 
 // errClass normalises an error message into a stable fingerprint.
@@ -150,20 +154,27 @@ func workers() int {
 }
 
 // parallel runs f(i) for i in [0,n) over the worker pool, in chunks.
-func parallel(n int, f func(i int)) {
+func parallel(n int, f func(i int)) { parallelW(n, func(_, i int) { f(i) }) }
+
+// parallelW is parallel with the worker number (0..workers()-1) passed along.
+func parallelW(n int, f func(w, i int)) {
 	w := workers()
 	if n < 64 {
 		for i := 0; i < n; i++ {
-			f(i)
+			f(0, i)
 		}
 		return
 	}
 	var wg sync.WaitGroup
 	var mu sync.Mutex
 	next := 0
-	const chunk = 256
+	chunk := 256
+	if n > 1<<20 {
+		chunk = 8192
+	}
 	for k := 0; k < w; k++ {
 		wg.Add(1)
+		k := k
 		go func() {
 			defer wg.Done()
 			for {
@@ -179,7 +190,7 @@ func parallel(n int, f func(i int)) {
 					hi = n
 				}
 				for i := lo; i < hi; i++ {
-					f(i)
+					f(k, i)
 				}
 			}
 		}()
@@ -187,17 +198,36 @@ func parallel(n int, f func(i int)) {
 	wg.Wait()
 }
 
-// counter batches Eval calls so that hot loops do not fight for the run mutex.
+// counter collects case signatures per worker (no lock in hot loops); the
+// cases are reported to the run afterwards, one Eval per case.
 type counter struct {
-	mu   sync.Mutex
-	sigs map[string]int
+	per []map[string]int
 }
 
-func newCounter() *counter { return &counter{sigs: map[string]int{}} }
-func (c *counter) add(sig string) {
-	c.mu.Lock()
-	c.sigs[sig]++
-	c.mu.Unlock()
+func newCounter() *counter {
+	c := &counter{per: make([]map[string]int, workers())}
+	for i := range c.per {
+		c.per[i] = map[string]int{}
+	}
+	return c
+}
+func (c *counter) add(w int, sig string) { c.per[w][sig]++ }
+func (c *counter) merged() map[string]int {
+	m := map[string]int{}
+	for _, p := range c.per {
+		for k, v := range p {
+			m[k] += v
+		}
+	}
+	return m
+}
+func sortedKeys(m map[string]int) []string {
+	keys := make([]string, 0, len(m))
+	for k := range m {
+		keys = append(keys, k)
+	}
+	sort.Strings(keys)
+	return keys
 }
 
 var _ = reNum
